@@ -20,6 +20,7 @@ import XsdataModel.Proofs.C09Chunks
 import XsdataModel.Proofs.C09NsRel
 import XsdataModel.Proofs.C09Infoset
 import XsdataModel.Proofs.C09XInclude
+import XsdataModel.Proofs.C09WsDeep
 
 namespace Props.C09
 open Py Xs.Bind Proofs.C09
@@ -139,6 +140,34 @@ example : elementOnly Data.plainMeta = true := by decide
 example : Data.benv.py.strip "\n  ".toList = [] := by decide
 example : Data.primOf (parseRoot Data.benv Data.ctx {} "Plain".toList Data.plainDocPretty) "y" = some (.bool true) := by
   decide
+
+/-! ## 2b. ignorable white space at every level of the document -/
+
+/-- **ws_invariant_deep**: for a universe whose classes have no text field (`textless`: complex
+content only; leaf values are elements of primitive type, wildcard and mixed content allowed), two
+documents related by `wsRel` — same names, attributes, prefix maps; at *every* level tails equal for
+`normalize_content`, and the character data of an element with child elements equal for
+`normalize_content` — are parsed (`NodeParser.parse`) to the same result, whatever kinds of nodes the
+parser creates on the way (element, primitive, standard, wildcard, wrapper, skipped). -/
+theorem ws_invariant_deep (e : BEnv) (Γ : Ctx) (cfg : ParserConfig) (hΓ : ctxAll textless Γ = true) (c : ClassId)
+    (t t' : Tree) (h : wsRel e.py t t' = true) : parseRoot e Γ cfg c t = parseRoot e Γ cfg c t' :=
+  parseRoot_wsRel e Γ cfg hΓ c t t' h
+
+/-- **indent_invariant_deep**: pretty-printing the whole document (white space `ws` before the first
+child of every element without significant text, and after every element without significant tail)
+does not change the result. -/
+theorem indent_invariant_deep (e : BEnv) (Γ : Ctx) (cfg : ParserConfig) (hΓ : ctxAll textless Γ = true) (c : ClassId)
+    (ws : Str) (hws : e.py.strip ws = []) (t : Tree) :
+    parseRoot e Γ cfg c (indentDeep e.py ws t) = parseRoot e Γ cfg c t :=
+  (parseRoot_wsRel e Γ cfg hΓ c t _ (wsRel_indentDeep e.py ws hws t)).symm
+
+-- non-vacuity: the example universe is textless; the pretty-printed document is a proper, different tree
+example : ctxAll textless Data.ctx = true := by decide
+example : wsRel Data.benv.py Data.plainDoc (indentDeep Data.benv.py "\n  ".toList Data.plainDoc) = true := by decide
+example : Data.primOf (parseRoot Data.benv Data.ctx {} "Plain".toList (indentDeep Data.benv.py "\n  ".toList Data.plainDoc)) "y"
+    = some (.bool true) := by decide
+-- significant text is not ignorable: `<x>hello</x>` vs `<x> hello</x>`
+example : wsRel Data.benv.py (Data.leaf "x" (some "hello")) (Data.leaf "x" (some " hello")) = false := by decide
 
 /-! ## 3. surrounding white space of non-string values
 
